@@ -6,14 +6,15 @@ import re
 from harness import core, docgen, inputs, trees
 
 GEN = ['gen_tables']
-THEOREMS = ['C10_plain_words_reflow', 'C10_plain_words_instance', 'C10_bound', 'C10_words_preserved', 'C10_fill_determined_by_words', 'C10_not_rebroken', 'C10_quote_budget',
+THEOREMS = ['C10_tree_reflow', 'C10_tree_reflow_pieces', 'C10_tree_reflow_instance', 'C10_plain_words_reflow', 'C10_plain_words_instance', 'C10_bound', 'C10_words_preserved', 'C10_fill_determined_by_words', 'C10_not_rebroken', 'C10_quote_budget',
             'C10_list_item_budget']
 TRUSTED = ['Model/MarkdownRenderer.v: hand-written model of markdown_renderer.py (fragments, make_words, fragments_to_lines, prefix_lines, '
            'block rendering, tables); the whitespace table (\\s / str.isspace) is regenerated from the interpreter every run',
            'the document generator harness/docgen.py and the HTML whitespace normaliser (oracle side)']
-ASSUMPTIONS = ['clauses 1 (same meaning after reflow) and 4 (reflowing again changes nothing) are PROVED for top-level paragraphs of plain words and every limit '
-               '(C10_plain_words_reflow; the class is also run on the implementation: plain_word_paragraphs); for other documents they are decided by the oracle on '
-               'the implementation only (PARTIAL)',
+ASSUMPTIONS = ['clauses 1 (same meaning after reflow) and 4 (reflowing again changes nothing) are PROVED for every limit on paragraphs of plain words at every nesting '
+               'depth of block quotes and lists, with fenced code, ATX headings and thematic breaks between them (C10_tree_reflow, C10_plain_words_reflow; the class is '
+               'also run on the implementation and, tree by tree, inside the proof assistant: word_trees, plain_word_paragraphs); for other documents (inline markup, '
+               'setext headings, tables, HTML) they are decided by the oracle on the implementation only (PARTIAL)',
                'prose words that could start a block at the beginning of a line are the recorded class kf_wrap_block_marker_word']
 
 
@@ -195,6 +196,186 @@ def plain_words_worker(args):
     return [problems, out, again, h1, h2]
 
 
+# ---- the class of C10_tree_reflow: trees of quotes and lists whose paragraphs are lines of plain words ----
+WT_CODE = ['x = 1', 'print("a b c d e f g h i j k")', '# not a heading', '- not an item', 'y', '  indented by hand']
+WT_HEADS = ['next', 'A longer title of several words', 'x', 'Zed. (q)']
+
+
+def wt_gen(rng, depth):
+    """a tree of Proofs/ReflowTree.v's wtree: ('p', lines of words) ('f', ch, n, lines) ('h', lv, text) ('r', c, n) ('q', kids) ('i', marker, pad, kids) ('m', marker, pad, kids, blank, next)"""
+    c = rng.random()
+    if depth >= 3 or c < 0.4:
+        words = [rng.choice(PLAIN_WORDS) for _ in range(rng.randint(1, 16))]
+        lines = []
+        while words:
+            k = rng.randint(1, 7)
+            lines.append(words[:k])
+            words = words[k:]
+        return ('p', lines)
+    if c < 0.47:
+        return ('f', rng.choice('`~'), rng.randint(3, 5), [rng.choice(WT_CODE) for _ in range(rng.randint(0, 3))])
+    if c < 0.53:
+        return ('h', rng.randint(1, 6), rng.choice(WT_HEADS))
+    if c < 0.57:
+        return ('r', rng.choice('-_*'), rng.randint(0, 3))
+    if c < 0.78:
+        return ('q', wt_kids(rng, depth + 1, None))
+    return wt_list(rng, depth, rng.choice(['-', '*', '+', '.', ')']), rng.randint(1, 3))
+
+
+def wt_first(t):
+    return t[1][0][0][0] if t[0] == 'p' else t[1] if t[0] in 'fr' else '#' if t[0] == 'h' else '>' if t[0] == 'q' else t[1][0]
+
+
+def wt_kids(rng, depth, bullet):
+    kids = []
+    for _ in range(rng.randint(1, 3)):
+        for _try in range(20):
+            k = wt_gen(rng, depth)
+            if kids and kids[-1][0] in 'im' and k[0] in 'im':
+                continue                      # two lists are never neighbours
+            if not kids and bullet is not None and wt_first(k) == bullet:
+                continue                      # after a bullet the content does not begin with the same bullet
+            kids.append(k)
+            break
+    return kids or [('p', [[rng.choice(PLAIN_WORDS)]])]
+
+
+def wt_list(rng, depth, key, items):
+    number = rng.randint(0, 98)
+
+    def marker(i):
+        return key if key in '-*+' else str(number + i) + key
+    chain = None
+    for i in reversed(range(items)):
+        mk, pad = marker(i), rng.randint(1, 4)
+        kids = wt_kids(rng, depth + 1, mk if key in '-*+' else None)
+        chain = ('i', mk, pad, kids) if chain is None else ('m', mk, pad, kids, rng.random() < 0.5, chain)
+    return chain
+
+
+def wt_spell(t):
+    if t[0] == 'p':
+        return [' '.join(g) for g in t[1]]
+    if t[0] == 'f':
+        return [t[1] * t[2]] + list(t[3]) + [t[1] * t[2]]
+    if t[0] == 'h':
+        return ['#' * t[1] + ' ' + t[2]]
+    if t[0] == 'r':
+        return [t[1] * (3 + t[2])]
+    kids = t[1] if t[0] == 'q' else t[3]
+    inner = []
+    for i, k in enumerate(kids):
+        if i:
+            inner.append('')
+        inner += wt_spell(k)
+    if t[0] == 'q':
+        return ['> ' + l for l in inner]
+    w = len(t[1]) + t[2]
+    item = [t[1] + ' ' * t[2] + inner[0]] + [(' ' * w + l) if l else '' for l in inner[1:]]
+    return item + ([''] if t[4] else []) + wt_spell(t[5]) if t[0] == 'm' else item
+
+
+def wt_reflow(t, L):
+    """the tree the renderer must write with limit L, computed here without the library: greedy filling, the budget shrunk by every container"""
+    if t[0] == 'p':
+        lines, cur = [], []
+        for w in [w for g in t[1] for w in g]:
+            if cur and len(' '.join(cur)) + 1 + len(w) > L:
+                lines.append(cur)
+                cur = [w]
+            else:
+                cur = cur + [w]
+        return ('p', lines + [cur])
+    if t[0] == 'q':
+        return ('q', [wt_reflow(k, L - 2) for k in t[1]])
+    if t[0] == 'i':
+        return ('i', t[1], t[2], [wt_reflow(k, L - len(t[1]) - t[2]) for k in t[3]])
+    if t[0] == 'm':
+        return ('m', t[1], t[2], [wt_reflow(k, L - len(t[1]) - t[2]) for k in t[3]], t[4], wt_reflow(t[5], L))
+    return t
+
+
+def _wzl(x):
+    return '[' + '; '.join(str(ord(c)) for c in x) + ']'
+
+
+def wt_gallina(t):
+    def mk(m):
+        return '(MBullet %d)' % ord(m) if m in '-*+' else '(MOrdered %s %d)' % (_wzl(m[:-1]), ord(m[-1]))
+    if t[0] == 'p':
+        return '(WPara [%s])' % '; '.join('[%s]' % '; '.join(_wzl(w) for w in g) for g in t[1])
+    if t[0] == 'f':
+        def sl(l):
+            k = len(l) - len(l.lstrip(' '))
+            return '(SLine %d %d %s)' % (k, ord(l[k]), _wzl(l[k + 1:]))
+        return '(WFence %d %d [%s])' % (ord(t[1]), t[2], '; '.join(sl(l) for l in t[3]))
+    if t[0] == 'h':
+        return '(WHead %d %d %s)' % (t[1], ord(t[2][0]), _wzl(t[2][1:]))
+    if t[0] == 'r':
+        return '(WRule %d %d)' % (ord(t[1]), t[2])
+    if t[0] == 'q':
+        return '(WQuote [%s])' % '; '.join(wt_gallina(k) for k in t[1])
+    if t[0] == 'i':
+        return '(WItem %s %d [%s])' % (mk(t[1]), t[2], '; '.join(wt_gallina(k) for k in t[3]))
+    return '(WMore %s %d [%s] %s %s)' % (mk(t[1]), t[2], '; '.join(wt_gallina(k) for k in t[3]), 'true' if t[4] else 'false', wt_gallina(t[5]))
+
+
+def wt_worker(args):
+    """the class of C10_tree_reflow on the implementation: what the renderer writes with the limit, its meaning, and the fixed point"""
+    text, L = args
+    import mistletoe
+    from mistletoe import Document
+    from mistletoe.markdown_renderer import MarkdownRenderer
+    try:
+        with MarkdownRenderer(max_line_length=L) as r:
+            out = r.render(Document(text))
+            again = r.render(Document(out))
+        return [out, again, mistletoe.markdown(text), mistletoe.markdown(out)]
+    except Exception as e:
+        return 'EXC %s: %s' % (type(e).__name__, e)
+
+
+def _wt_shard(arg):
+    import os
+    k, cases = arg
+    d = os.path.join(core.ROOT, 'coq', 'cases')
+    os.makedirs(d, exist_ok=True)
+    path = os.path.join(d, 'C10Cases%d.v' % k)
+    with open(path, 'w') as f:
+        f.write('From Coq Require Import ZArith List Bool.\nFrom Mistletoe Require Import Base.Sx Base.PyStr Base.PyText Proofs.ListLaw Spec.Fragment Proofs.FragmentP Proofs.ReflowTree.\n'
+                'Import ListNotations.\nOpen Scope Z_scope.\nDefinition cs : list (wtree * Z) := [\n  %s].\n'
+                'Eval vm_compute in map (fun c => (wwf (fst c), concat (text_of (spell (to_f (fst c)))), concat (text_of (spell (to_f (reflow (snd c) (fst c))))))) cs.\n'
+                % ';\n  '.join('(%s, %d)' % (wt_gallina(t), L) for t, L in cases))
+    rc, out = core.sh(['coqc', '-Q', 'theories', 'Mistletoe', path], timeout=900, cwd=os.path.join(core.ROOT, 'coq'))
+    for junk in [path[:-2] + ext for ext in ('.vo', '.vok', '.vos', '.glob', '.v')] + [os.path.join(d, '.C10Cases%d.aux' % k)]:
+        try:
+            os.remove(junk)
+        except OSError:
+            pass
+    if rc != 0 or '=' not in out:
+        return None, out[-400:]
+    body = out.split('=', 1)[1].rsplit(': list', 1)[0]
+    res = []
+    for m in re.finditer(r'\(\s*(true|false),\s*\[([^\]]*)\],\s*\[([^\]]*)\]\)', body):
+        res.append((m.group(1) == 'true', ''.join(chr(int(x)) for x in re.findall(r'-?\d+', m.group(2))), ''.join(chr(int(x)) for x in re.findall(r'-?\d+', m.group(3)))))
+    return (res, '') if len(res) == len(cases) else (None, 'unreadable output: ' + out[-300:])
+
+
+def model_word_trees(cases):
+    """inside the proof assistant: the hypothesis wwf, the text the model spells for the tree and the text of reflow L t - (wwf, source, reflowed) per case"""
+    from concurrent.futures import ThreadPoolExecutor
+    shards = [(k, cases[i:i + 25]) for k, i in enumerate(range(0, len(cases), 25))]
+    with ThreadPoolExecutor(max_workers=core.NPROC) as ex:
+        parts = list(ex.map(_wt_shard, shards))
+    out = []
+    for res, err in parts:
+        if res is None:
+            return None, err
+        out += res
+    return out, ''
+
+
 def run(ctx, only=None):
     ctx.cov['rule'] = ('X-wrap: synthetic Fragment lists through the real make_words / fragments_to_lines for L in 1..120 and None; X-md: parsed trees x L x '
                        'normalize_whitespace; oracle: generated documents x L; non-trivial = the fragment list yields at least three words / the document '
@@ -311,6 +492,47 @@ def run(ctx, only=None):
         if isinstance(r, str) or r[0]:
             ctx.failing.append({'interface': 'oracle(plain words)', 'input': {'text': ' '.join(words) + '\n', 'L': L},
                                 'what': r if isinstance(r, str) else '; '.join(r[0]), 'observed': None if isinstance(r, str) else r[1:], 'kf': None})
+    # ---- the class of C10_tree_reflow (word paragraphs at every depth of quotes and lists x every limit): the implementation against the reflowed tree
+    #      written here without the library, and against the model's reflow evaluated inside the proof assistant
+    wj = []
+    for _ in range(1500 if ctx.quick() else 30000):
+        kids = wt_kids(rng, 0, None)
+        t = ('q', kids) if rng.random() < 0.5 else wt_list(rng, 0, rng.choice(['-', '*', '+', '.', ')']), rng.randint(1, 3))
+        wj.append((t, rng.choice([1, 4, 8, 12, 16, 20, 25, 30, 40, 60, 80, rng.randint(1, 100)])))
+    with mp.Pool(core.NPROC) as pool:
+        wres = pool.map(wt_worker, [('\n'.join(wt_spell(t)) + '\n', L) for t, L in wj], chunksize=100)
+    unl = lambda h: h.replace('\n', ' ')
+    for (t, L), r in zip(wj, wres):
+        ctx.count('evaluations')
+        ctx.count('word_trees')
+        src = '\n'.join(wt_spell(t)) + '\n'
+        want = '\n'.join(wt_spell(wt_reflow(t, L))) + '\n'
+        inp = {'text': src, 'L': L}
+        if want != src:
+            ctx.count('word_trees_changed_by_the_limit')
+        if isinstance(r, str):
+            ctx.failing.append({'interface': 'oracle(word trees)', 'input': inp, 'what': 'rendering raised ' + r, 'kf': None})
+        elif r[0] != want:
+            ctx.failing.append({'interface': 'oracle(word trees)', 'input': inp, 'what': 'the reflowed text is not the tree with the words of each paragraph regrouped under its budget',
+                                'observed': r[0], 'expected': want, 'kf': None})
+        elif unl(r[2]) != unl(r[3]):
+            ctx.failing.append({'interface': 'oracle(word trees)', 'input': inp, 'what': 'the HTML of the reflowed text differs from the original by more than line endings',
+                                'observed': r[3], 'expected': r[2], 'kf': None})
+        elif r[1] != r[0]:
+            ctx.failing.append({'interface': 'oracle(word trees)', 'input': inp, 'what': 'reflowing the reflowed text again changes it', 'observed': r[1], 'expected': r[0], 'kf': None})
+    nm = 100 if ctx.quick() else 1000
+    mres, err = model_word_trees(wj[:nm])
+    if mres is None:
+        ctx.disagreements.append({'interface': 'X-hyp(word trees)', 'input': None, 'model': 'the cases file did not evaluate: ' + err, 'impl': None})
+    else:
+        for (t, L), (ok, msrc, mout) in zip(wj[:nm], mres):
+            ctx.count('evaluations')
+            ctx.count('word_trees_evaluated_in_the_model')
+            src = '\n'.join(wt_spell(t)) + '\n'
+            want = '\n'.join(wt_spell(wt_reflow(t, L))) + '\n'
+            if not ok or msrc != src or mout != want:
+                ctx.disagreements.append({'interface': 'X-hyp(word trees)', 'input': {'text': src, 'L': L, 'tree': wt_gallina(t)},
+                                          'model': {'wwf': ok, 'source': msrc, 'reflowed': mout}, 'impl': {'source': src, 'reflowed': want}})
     # ---- clause 3 decided exactly: prose and setext headings nested in quotes and lists, words without spaces, every limit
     bj = []
     for _ in range(4000 if ctx.quick() else 80000):
